@@ -23,6 +23,16 @@
 //!     damaged - followed by get (miss), re-put of the identical data, get.
 //!  S6 8 threads doing random puts/gets of a few disjoint ranges of 5 keys under a capacity of a handful of items (3 s): every
 //!     hit equals the model; after joining and reading back every entry, totals == files on disk.
+//!  S7 names of every decoded length, planted while closed, one length per re-open: KEY-level directories `<p>/<name>` whose
+//!     URL-safe base64 name decodes to 1..=40 bytes (zero bytes -> prefix directory "AA"; 0xFF bytes -> "__"; and, from 2 bytes on,
+//!     bytes chosen so that the name starts with the 2 characters of the GENUINE key's prefix directory and sits next to it) -
+//!     in particular the 44-character names ending in `==` (31 bytes, one short of a hash), `=` (32 bytes: a key with an empty
+//!     prefix) and longer ones (hash + prefix bytes, UTF-8 or not); each planted directory holds a stray file and a well-formed
+//!     item file.  And ITEM-level files in the genuine key directory whose name decodes to 19 / 21 / 24 bytes (a genuine item
+//!     name is 20 bytes), built from the genuine item's name.  Re-open must not panic or fail, the genuine entry must still be a
+//!     correct hit, the planted ranges must not be hits.  (Renaming a genuine file to another range of the same width or moving
+//!     it to another key directory is NOT done here: on HEAD such a file is served - recorded finding
+//!     /verif/findings/c12_renamed_same_width_served_as_hit.rs.)
 //!  S5 (last, can be skipped with VERIF_C12_SKIP_FOREIGN_DIRS=1) directories with foreign names inside a prefix directory.
 //!
 //! Deterministic inputs from VERIF_SEED (default 0); thread schedules are whatever the machine produces, so the races are
@@ -840,6 +850,119 @@ fn s6_mixed_stress(seed: u64, budget: Duration) -> W {
     Ok(())
 }
 
+/// S7: planted key directories / item files whose base64 name decodes to every length around the genuine ones
+fn s7_names_of_every_length(seed: u64) -> W {
+    const A: &[u8; 64] = b"ABCDEFGHIJKLMNOPQRSTUVWXYZabcdefghijklmnopqrstuvwxyz0123456789-_";
+    let cap = 1u64 << 20;
+    let k = 9950 + 3 * seed + 1;
+    let (s, e) = (3u32, 6u32);
+    let dir = tmp();
+    let root = dir.path();
+    let ctx0 = format!("S7 seed {seed}: item key#{k} [{s},{e}), capacity {cap}");
+    let c = open_clean(root, cap, &ctx0)?;
+    put(&c, k, s, e, &ctx0)?;
+    drop(c);
+    let Some(file) = files_below(root).into_iter().map(|f| f.0).next() else { infra("S7: no file".into()) };
+    let key_dir = file.parent().unwrap_or(root).to_path_buf();
+    let prefix_dir = key_dir.parent().unwrap_or(root).to_path_buf();
+    let prefix_name = prefix_dir.file_name().and_then(|n| n.to_str()).unwrap_or("AA").to_string();
+    let item_file_name = file.file_name().and_then(|n| n.to_str()).unwrap_or("").to_string();
+    let genuine_item = b64_url_decode(&item_file_name);
+    if genuine_item.len() != 20 {
+        infra(format!("S7: item file name {item_file_name:?} does not decode to 20 bytes"));
+    }
+    // the 12 bits that the two characters of the genuine prefix directory stand for
+    let pv: Vec<u32> = prefix_name.bytes().filter_map(|ch| A.iter().position(|a| *a == ch).map(|p| p as u32)).collect();
+    if pv.len() != 2 {
+        infra(format!("S7: prefix directory name {prefix_name:?} is not two base64 characters"));
+    }
+    let io = |r: std::io::Result<()>| r.unwrap_or_else(|e| infra(format!("S7: {e}")));
+    let check = |what: &str, planted: &[PathBuf]| -> W {
+        let ctx = format!("{ctx0}; cache closed; planted {what}; re-opened");
+        let Some(c) = open(root, cap, &ctx)? else {
+            return Err(format!("{ctx}: DiskCache::initialize fails because of the planted entry, the genuine entry is no longer served"));
+        };
+        for (gs, ge) in [(s, e), (s + 1, e), (s, e - 1)] {
+            if !get(&c, k, gs, ge, true, &ctx)? {
+                return Err(format!("{ctx}: the genuine entry key#{k} [{s},{e}) is no longer served (get [{gs},{ge}) is not a hit)"));
+            }
+        }
+        get(&c, k, 0, 1, false, &ctx)?;
+        get(&c, k, 40, 42, false, &ctx)?;
+        get(&c, k, s, e + 1, false, &ctx)?;
+        drop(c);
+        for p in planted {
+            if p.is_dir() {
+                let _ = std::fs::remove_dir_all(p);
+            } else {
+                let _ = std::fs::remove_file(p);
+            }
+        }
+        Ok(())
+    };
+    for len in 1..=40usize {
+        let mut variants: Vec<(String, Vec<u8>)> = vec![("zero bytes".into(), vec![0u8; len]), ("0xFF bytes".into(), vec![0xFFu8; len])];
+        if len >= 2 {
+            let mut b: Vec<u8> = (0..len).map(|i| mix(seed ^ 0x57, (len * 64 + i) as u64) as u8).collect();
+            b[0] = ((pv[0] << 2) | (pv[1] >> 4)) as u8;
+            b[1] = (((pv[1] & 15) << 4) as u8) | (b[1] & 15);
+            variants.push(("bytes starting like the genuine key".into(), b.clone()));
+            // hash bytes random, prefix part (beyond 32 bytes) printable
+            if len > 32 {
+                for x in b[32..].iter_mut() {
+                    *x = b'a' + (*x % 26);
+                }
+                variants.push(("bytes starting like the genuine key, ASCII beyond the hash".into(), b));
+            }
+        }
+        let mut planted = Vec::new();
+        let mut shown = Vec::new();
+        for (what, bytes) in &variants {
+            let name = b64_url(bytes);
+            if b64_url_decode(&name) != *bytes {
+                infra(format!("S7: base64 helper broken for {bytes:?}"));
+            }
+            let d = root.join(&name[..2]).join(&name);
+            if d == key_dir || d.exists() {
+                continue;
+            }
+            io(std::fs::create_dir_all(&d));
+            io(std::fs::write(d.join("stray"), b"not a cache item"));
+            io(std::fs::write(d.join(item_name(40, 42, 100, 1)), vec![1u8; 100]));
+            shown.push(format!("'{}/{name}' ({what})", &name[..2]));
+            planted.push(d);
+        }
+        check(
+            &format!("key-level directories whose {}-character name decodes to {len} bytes: {}, each holding a stray file and a well-formed item file", b64_url(&vec![0u8; len]).len(), shown.join(", ")),
+            &planted,
+        )?;
+        for p in ["AA", "__"] {
+            let _ = std::fs::remove_dir(root.join(p));
+        }
+    }
+    for len in [19usize, 21, 24] {
+        let mut variants: Vec<Vec<u8>> = Vec::new();
+        let mut a = genuine_item.clone();
+        a.resize(len, 0);
+        variants.push(a);
+        let mut b = item_name(0, 1, 100, 7).into_bytes();
+        b = b64_url_decode(std::str::from_utf8(&b).unwrap_or(""));
+        b.resize(len, 0xEE);
+        variants.push(b);
+        let mut planted = Vec::new();
+        let mut shown = Vec::new();
+        for bytes in &variants {
+            let name = b64_url(bytes);
+            let f = key_dir.join(&name);
+            io(std::fs::write(&f, vec![1u8; 100]));
+            shown.push(format!("'{name}'"));
+            planted.push(f);
+        }
+        check(&format!("item-level files in the genuine key directory whose name decodes to {len} bytes (genuine: 20): {}", shown.join(", ")), &planted)?;
+    }
+    Ok(())
+}
+
 /// S5: directories with foreign names inside a prefix directory (`<p>` = the 2-character name of the prefix directory):
 /// `<p>AA` is valid base64 of 3 bytes, i.e. shorter than a key; the other two do not start with `<p>`.
 /// All violations found are reported together.
@@ -914,6 +1037,10 @@ fn run(seed: u64) -> W {
     if on("S6") {
         s6_mixed_stress(seed, Duration::from_secs(if only.is_empty() { 3 } else { 10 }))?;
         eprintln!("S6 done at {:?}", t.elapsed());
+    }
+    if on("S7") {
+        s7_names_of_every_length(seed)?;
+        eprintln!("S7 done at {:?}", t.elapsed());
     }
     if on("S5") && std::env::var("VERIF_C12_SKIP_FOREIGN_DIRS").map_or(true, |v| v != "1") {
         s5_foreign_directories(seed)?;
